@@ -214,8 +214,14 @@ func FreshFrom(ctor Ctor, from *Replica, route int, save func(context.Context, i
 			if _, ok := r.Store.OpLog().Get(all[j].GetHash()); ok {
 				continue
 			}
-			if err := r.Store.Sync(context.Background(), []ipfslog.Entry{all[j].Copy()}); err != nil {
-				vstub.Fail("Sync returned an error for an honest lagging head")
+			if vstub.NdChoice("lagging-via", 2) == 0 {
+				if err := r.Store.Sync(context.Background(), []ipfslog.Entry{all[j].Copy()}); err != nil {
+					vstub.Fail("Sync returned an error for an honest lagging head")
+				}
+			} else {
+				// the "load more" request of the public store API
+				r.Store.LoadMoreFrom(context.Background(), 0, []ipfslog.Entry{all[j].Copy()})
+				vstub.Cover("load-more-from")
 			}
 			vstub.WaitIdle()
 		}
